@@ -100,6 +100,28 @@ func outcomes() []outcome {
 		mk("abortAfterHello", "0/", withManual(helloH1), func(h *holder) []bubble.Step {
 			return []bubble.Step{{Name: "deliver hello", Do: func() { h.c.Deliver(-1) }}, abortStep(h)}
 		}),
+		mk("recordVersion0305-h2", "0/", func() bubble.Hello {
+			// legal for crypto/tls (the record-layer version of the first record is not checked), but the capture rejects it:
+			// the handshake succeeds, the capture fails -> one count under ok="0" with an empty protocol
+			h := helloH2
+			h.Name = "chrome-recver0305"
+			h.Filter = func(off int64, b []byte) []byte {
+				if off == 0 && len(b) >= 3 {
+					b[1], b[2] = 0x03, 0x05
+				}
+				return b
+			}
+			return h
+		}(), func(h *holder) []bubble.Step {
+			return []bubble.Step{
+				{Name: "preface+request", Do: func() {
+					if d, err := h.c.Handshake(); d && err == nil {
+						h.c.StartH2()
+						h.c.SendH2(1, bubble.Req{Path: "/never", Host: "localhost"})
+					}
+				}},
+				closeStep(h)}
+		}),
 		mk("abortAfterHS-h2", "1/h2", helloH2, func(h *holder) []bubble.Step { return []bubble.Step{abortStep(h)} }),
 		mk("abortAfterHS-h1", "1/http/1.1", helloH1, func(h *holder) []bubble.Step { return []bubble.Step{abortStep(h)} }),
 		mk("abortMidReq-h1", "1/http/1.1", helloH1, func(h *holder) []bubble.Step {
